@@ -15,15 +15,11 @@ func init() {
 	checks["C15"] = func(tier string) int {
 		t := gen.Build()
 		r := ev.NewRun("C15", tier, "model_checking")
-		n, full, after, maxSeq := 8, 4, 2, 30_000_000
+		n, full, after, maxSeq := 9, 4, 2, 60_000_000
 		if tier == "thorough" {
-			n, full, after, maxSeq = 10, 5, 3, 400_000_000
+			n, full, after, maxSeq = 11, 5, 3, 1_600_000_000
 		}
-		out, err := runBatch(t, "c15", strconv.Itoa(n), filepath.Join(gen.Repo, "spec", "gocc2.ebnf"), strconv.Itoa(maxSeq), strconv.Itoa(full), strconv.Itoa(after))
-		if err != nil {
-			ev.Inconsistent("c15 explorer failed: %v", err)
-		}
-		var o struct {
+		type c15o struct {
 			Pairs, Edges                                            int
 			ProductMismatch                                         string
 			ProdMismatch                                            []string
@@ -36,8 +32,41 @@ func init() {
 			Capped                                                  bool
 			ContinuedAfterError                                     int
 		}
-		if err := json.Unmarshal(out, &o); err != nil {
-			ev.Inconsistent("c15 output: %v\n%s", err, out)
+		const nshards = 16
+		outs := make([]c15o, nshards)
+		gen.ParallelFor(nshards, nshards, func(k int) {
+			out, err := runBatch(t, "c15", strconv.Itoa(n), filepath.Join(gen.Repo, "spec", "gocc2.ebnf"), strconv.Itoa(maxSeq/nshards+1), strconv.Itoa(full), strconv.Itoa(after), strconv.Itoa(k), strconv.Itoa(nshards))
+			if err != nil {
+				ev.Inconsistent("c15 explorer failed: %v", err)
+			}
+			if err := json.Unmarshal(out, &outs[k]); err != nil {
+				ev.Inconsistent("c15 output: %v\n%s", err, out)
+			}
+		})
+		o := outs[0]
+		for _, x := range outs[1:] {
+			o.Sequences += x.Sequences
+			o.Sentences += x.Sentences
+			o.NonViableProbes += x.NonViableProbes
+			o.NViol += x.NViol
+			o.Known += x.Known
+			o.DistinctReductionTraces += x.DistinctReductionTraces
+			o.ContinuedAfterError += x.ContinuedAfterError
+			o.Capped = o.Capped || x.Capped
+			o.Violations = append(o.Violations, x.Violations...)
+			o.ProdMismatch = append(o.ProdMismatch, x.ProdMismatch...)
+			if len(o.Samples) < 5 {
+				o.Samples = append(o.Samples, x.Samples...)
+			}
+			if o.KnownSample == "" {
+				o.KnownSample = x.KnownSample
+			}
+			if x.MaxLen > o.MaxLen {
+				o.MaxLen = x.MaxLen
+			}
+		}
+		if len(o.ProdMismatch) > 1 {
+			o.ProdMismatch = o.ProdMismatch[:1]
 		}
 		r.Set("states", o.Pairs)
 		r.Set("transitions", o.Edges)
